@@ -26,6 +26,8 @@ import (
 	"github.com/buildbuildio/pebbles/requests"
 	"github.com/vektah/gqlparser/v2"
 	"github.com/vektah/gqlparser/v2/ast"
+	"github.com/vektah/gqlparser/v2/formatter"
+	"github.com/vektah/gqlparser/v2/parser"
 
 	"bytes"
 	"net/http/httptest"
@@ -139,11 +141,19 @@ func buildSDL(feats []string) string {
 		case "interface-chain":
 			defs = append(defs, "interface Named {\n  label: String\n}", "interface Aged {\n  age: Int\n}", "type Person implements Named & Aged {\n  label: String\n  age: Int\n}")
 			q = append(q, "  named: Named", "  aged: Aged")
+		case "interface-implements":
+			defs = append(defs, "interface Entity {\n  key: ID!\n}", "interface Titled implements Entity {\n  key: ID!\n  title: String\n}",
+				"type Book implements Titled & Entity {\n  key: ID!\n  title: String\n  pages: Int\n}")
+			q = append(q, "  titled: Titled", "  entity: Entity")
+		case "arg-default-string-list":
+			q = append(q, "  adStrList(labels: [String!]! = [\"x\", \"y z\"], ids: [ID] = [\"i1\"], nested: [[String]] = [[\"a\"], []]): Int")
 		case "union":
 			defs = append(defs, "type Cat {\n  meow: String\n}", "type Dog {\n  bark: String\n}", "union Pet = Cat | Dog")
 			q = append(q, "  pet: Pet")
 		case "subscription":
-			defs = append(defs, "type Subscription {\n  ticks(every: Int = 1): Int\n}")
+			if !has["root-sub-name"] {
+				defs = append(defs, "type Subscription {\n  ticks(every: Int = 1): Int\n}")
+			}
 		}
 	}
 	qname, mname := "Query", "Mutation"
@@ -155,8 +165,20 @@ func buildSDL(feats []string) string {
 	if has["mutation"] || has["root-names"] {
 		sdl += "\ntype " + mname + " {\n  setName(id: ID!, name: String = \"x\"): Item\n}\n"
 	}
-	if has["root-names"] {
-		sdl += "\nschema {\n  query: RootQ\n  mutation: RootM\n}\n"
+	if has["root-sub-name"] {
+		sdl += "\ntype Events {\n  tick(every: Int = 1): Int\n}\n"
+	}
+	if has["root-names"] || has["root-sub-name"] {
+		sdl += "\nschema {\n  query: " + qname + "\n"
+		if has["mutation"] || has["root-names"] {
+			sdl += "  mutation: " + mname + "\n"
+		}
+		if has["root-sub-name"] {
+			sdl += "  subscription: Events\n"
+		} else if has["subscription"] {
+			sdl += "  subscription: Subscription\n"
+		}
+		sdl += "}\n"
 	}
 	return sdl
 }
@@ -209,6 +231,77 @@ func post(g *pebbles.Gateway, body map[string]interface{}) (map[string]interface
 	return env, nil
 }
 
+func postBatch(g *pebbles.Gateway, bodies []map[string]interface{}) ([]interface{}, error) {
+	b, _ := json.Marshal(bodies)
+	req := httptest.NewRequest("POST", "/graphql", bytes.NewReader(b))
+	req.Header.Set("Content-Type", "application/json")
+	rec := httptest.NewRecorder()
+	g.Handler(rec, req)
+	var env []interface{}
+	if err := json.Unmarshal(rec.Body.Bytes(), &env); err != nil {
+		return nil, fmt.Errorf("not a JSON array: %s", rec.Body.String())
+	}
+	return env, nil
+}
+
+// aliased renders an introspection document with every field under the alias x_<name>.
+func aliased(text string) (string, error) {
+	doc, err := parser.ParseQuery(&ast.Source{Input: text})
+	if err != nil {
+		return "", err
+	}
+	var walk func(ss ast.SelectionSet)
+	walk = func(ss ast.SelectionSet) {
+		for _, sel := range ss {
+			switch x := sel.(type) {
+			case *ast.Field:
+				x.Alias = "x_" + x.Name
+				walk(x.SelectionSet)
+			case *ast.InlineFragment:
+				walk(x.SelectionSet)
+			}
+		}
+	}
+	for _, op := range doc.Operations {
+		walk(op.SelectionSet)
+	}
+	for _, fr := range doc.Fragments {
+		walk(fr.SelectionSet)
+	}
+	var buf bytes.Buffer
+	formatter.NewFormatter(&buf).FormatQueryDocument(doc)
+	return buf.String(), nil
+}
+
+func unalias(v interface{}) interface{} {
+	switch x := v.(type) {
+	case map[string]interface{}:
+		out := map[string]interface{}{}
+		for k, e := range x {
+			out[strings.TrimPrefix(k, "x_")] = unalias(e)
+		}
+		return out
+	case []interface{}:
+		out := make([]interface{}, len(x))
+		named := len(x) > 0
+		for i, e := range x {
+			out[i] = unalias(e)
+			if m, ok := out[i].(map[string]interface{}); !ok || m["name"] == nil {
+				named = false
+			}
+		}
+		// lists of named things (types, fields, arguments, directives ...) are sets: the gateway orders them by
+		// their "name" entry, which an aliased document does not have
+		if named {
+			sort.SliceStable(out, func(i, j int) bool {
+				return fmt.Sprint(out[i].(map[string]interface{})["name"]) < fmt.Sprint(out[j].(map[string]interface{})["name"])
+			})
+		}
+		return out
+	}
+	return v
+}
+
 type probe struct {
 	What      string `json:"what"`
 	Reported  bool   `json:"reported"`
@@ -246,7 +339,7 @@ func main() {
 		}
 		orig := mschema.Abs(sch).Fill()
 		ev := map[string]interface{}{"ev": "Intro", "features": c.Features, "sdl": sdl, "orig": orig, "ok": false, "err": "", "rebuilt": empty,
-			"typeAgrees": true, "probes": []probe{}, "mode": *mode}
+			"typeAgrees": true, "aliasAgrees": true, "concurrentAgrees": true, "probes": []probe{}, "mode": *mode}
 		enc.Encode(map[string]interface{}{"ev": "Begin", "features": c.Features})
 		bw.Flush()
 		switch *mode {
@@ -326,6 +419,40 @@ func main() {
 				}
 			}
 			ev["typeAgrees"] = agrees
+			// the same introspection document with every field aliased must give the same answer under the aliases
+			if at, aerr := aliased(introresp.StandardQuery); aerr != nil {
+				ev["err"] = "harness: " + aerr.Error()
+			} else {
+				ar, _ := post(g, map[string]interface{}{"query": at, "operationName": "IntrospectionQuery"})
+				ad, _ := ar["data"].(map[string]interface{})
+				if ad == nil || !reflect.DeepEqual(unalias(ad), unalias(data)) {
+					ev["aliasAgrees"] = false
+				}
+			}
+			// introspection operations that take name / includeDeprecated from variables, several at once in one
+			// batch: each is answered as if it were alone
+			{
+				var names []string
+				for n := range byName {
+					names = append(names, n)
+				}
+				sort.Strings(names)
+				const vq = "query V($n: String!, $d: Boolean) { __type(name: $n) { name fields(includeDeprecated: $d) { name } enumValues(includeDeprecated: $d) { name } } }"
+				var bodies []map[string]interface{}
+				var alone []interface{}
+				for i := 0; i < 8 && len(names) > 0; i++ {
+					b := map[string]interface{}{"query": vq, "variables": map[string]interface{}{"n": names[(i*5)%len(names)], "d": i%2 == 0}}
+					bodies = append(bodies, b)
+					r, _ := post(g, b)
+					alone = append(alone, interface{}(r))
+				}
+				for round := 0; round < 12 && ev["concurrentAgrees"] == true; round++ {
+					got, berr := postBatch(g, bodies)
+					if berr != nil || !reflect.DeepEqual(got, alone) {
+						ev["concurrentAgrees"] = false
+					}
+				}
+			}
 			// probes: every root query field reported <=> a query using it validates (incl. deprecated ones)
 			var probes []probe
 			reported := map[string]bool{}
